@@ -249,30 +249,42 @@ def job_qr_svg(job):
         raise Inconclusive('solver unknown: %s' % unk[:2])
     native = OV.Native(extra['native'])
     for lab, model in fails[:1]:
-        req = 'wasm_svg %s' % OV.hexs(b'test')
-        if has_size:
-            req += ' size=5,1'
-        if has_pos:
-            req += ' pos=10,10'
-        if has_image:
-            req += ' image=%s' % OV.hexs(b'x.png')
-        ans = native.ask(req)
-        key = 'C17/qr_svg.position-guard'
-        if ans.startswith('PANIC') or ans == 'ABORT':
-            confirmed, what = True, '%s panics: %s' % (name, ans[:90])
-        else:
-            # silent mismatch: compare with the native builder configured with the same values
-            doc = bytes.fromhex(ans).decode('utf-8', 'replace') if ans != '-' else ''
-            confirmed = False
-            what = '%s: %s (not reproduced as a panic)' % (name, lab)
-            if has_pos and not has_size and 'x="10' not in doc and 'image' in lab:
+        # native differential: the wasm export against the native builder configured with the same values, for a few
+        # concrete settings of this option state (zero / negative / fractional gaps, positions, margins)
+        key = 'C17/qr_svg.position-guard' if (has_size != has_pos) else 'C17/qr_svg'
+        confirmed, what, req = False, '%s: %s (not reproduced natively)' % (name, lab), ''
+        content = b'test'
+        base = native.ask('build %s - - - -' % OV.hexs(content))
+        fb = OV.parse_fields(base)
+        mod = fb['data']
+        vq = int(fb['version'])
+        for (sz, gp, posv, mg) in ((7.0, 0.0, (12.0, 13.0), 4), (5.0, 1.5, (10.0, 10.0), 2), (6.0, -1.0, (9.5, 11.0), 0), (8.0, 2.0, (15.0, 9.0), 7)):
+            req = 'wasm_svg %s margin=%d' % (OV.hexs(content), mg)
+            nreq = 'svg v=%d mod=%s margin=%d layers=0 fg=000000ff bg=ffffffff ibg=ffffffff ishape=0' % (vq, mod, mg)
+            if has_size:
+                req += ' size=%r,%r' % (sz, gp)
+                nreq += ' isize=%r igap=%r' % (sz, gp)
+            if has_pos:
+                req += ' pos=%r,%r' % posv
+                nreq += ' ipos=%r,%r' % posv
+            if has_image:
+                req += ' image=%s' % OV.hexs(b'x.png')
+                nreq += ' image=%s' % OV.hexs(b'x.png')
+            ans = native.ask(req)
+            if ans.startswith('PANIC') or ans == 'ABORT':
+                confirmed, what = True, '%s panics: %s' % (name, ans[:90])
+                break
+            nat = native.ask(nreq)
+            want = OV.parse_fields(nat).get('svg', '')
+            if ans != want:
+                got_doc = bytes.fromhex(ans).decode('utf-8', 'replace') if ans != '-' else ''
+                want_doc = bytes.fromhex(want).decode('utf-8', 'replace')
+                kdiff = next((i for i in range(min(len(got_doc), len(want_doc))) if got_doc[i] != want_doc[i]), min(len(got_doc), len(want_doc)))
                 confirmed = True
-                what = '%s: the requested image position is silently dropped (%s)' % (name, lab)
-            if 'position' in lab and has_pos and has_image and not has_size:
-                import re
-                mrect = re.search(r'<rect x="([^"]*)" y="([^"]*)" width="([^"]*)"', doc[doc.find('</path>') if '</path>' in doc else 0:] or doc)
-                confirmed = True
-                what = '%s: the image position option is not forwarded to the builder (%s)' % (name, lab)
+                what = ('%s differs from the native builder with the same settings (size=%s gap=%s position=%s margin=%d): ...%s... vs ...%s...  [%s]'
+                        % (name, sz if has_size else None, gp if has_size else None, posv if has_pos else None, mg,
+                           got_doc[max(0, kdiff - 30):kdiff + 40], want_doc[max(0, kdiff - 30):kdiff + 40], lab))
+                break
         res['failures'].append({'key': key, 'confirmed': confirmed, 'obligation': lab, 'what': what, 'replay': {'request': req}})
     res['vacuity'] = 1 if solver.check([ok])[0] == 'sat' and solver.check([T.lnot(ok)])[0] == 'sat' else 0
     native.close()
